@@ -262,6 +262,18 @@ func TestC04Alter(t *testing.T) {
 		o := gen.DatasetOpts{NowMs: time.Now().UnixNano() / 1e6, MaxKeys: 6, MaxElems: 6}
 		f := gen.GenFile(t, o)
 		f.Checksum = true
+		if rapid.IntRange(0, 3).Draw(t, "zeroRich") == 0 {
+			// a value whose serialization is rich in zero bytes: [len 1]["\x00"][len 0][len 0][len 16..63][...]. One altered bit in the
+			// first length byte (0x01 -> 0x81) turns the following eight bytes into a 64-bit length of 2^36..2^38: the kind of damage
+			// whose result is an allocation request, not an obviously absurd number
+			n := rapid.IntRange(16, 63).Draw(t, "zeroRichLen")
+			last := make([]byte, n)
+			for i := range last {
+				last[i] = byte('a' + i%26)
+			}
+			f.Items = append(f.Items, rdbgen.Item{Key: pbt.B("zero-rich"), Kind: "list", Enc: rdbgen.TList, Elems: []pbt.B{pbt.B("\x00"), pbt.B(""), pbt.B(""), pbt.B(last)}})
+			st.Class("zero-rich-value")
+		}
 		n := runAlterations(t, f)
 		st.Eval(n)
 		st.Fault(n)
